@@ -1,6 +1,8 @@
 import GramModel.Oracle
 import GramModel.Lemmas.Eval
 import GramModel.Lemmas.Oracle
+import GramModel.Typing
+import GramModel.StepRel
 
 /-!
 # C04 — a program's value inhabits the type reported for the program
@@ -71,3 +73,27 @@ theorem C04_canonical_forms : C04_canonical_forms_stmt := by
       | exact ⟨nofun, fun _ => Or.inl rfl, nofun⟩
       | exact ⟨nofun, fun _ => Or.inr rfl, nofun⟩
       | exact ⟨nofun, nofun, nofun⟩
+
+/-! ## Subject reduction and canonical forms for the declarative rules -/
+
+/-- **Subject reduction.**  Evaluation preserves types: if a hole-free term has type `T` under the
+declarative rules (`Typing.lean`) in hole-free contexts whose offsets are in range, and it takes one step of
+the call-by-value semantics, the result has type `T` too.  (Stated for arbitrary contexts because the
+evaluator steps inside the definitions of a group, i.e. under the group's binders.) -/
+def C04_preservation_stmt : Prop :=
+  ∀ (Γ : TCtxX) (Δ : DCtxX) (t t' T : Tm), t.holeFree = true →
+    (∀ p ∈ Γ, p.1.holeFree = true) → (∀ p ∈ Δ, ∀ d o, p = some (d, o) → d.holeFree = true) →
+    (∀ i ty off, Γ[i]? = some (ty, off) → off ≤ i + 1) →
+    (∀ i d off, Δ[i]? = some (some (d, off)) → off ≤ i + 1) →
+    HasType Γ Δ t T → Step t t' → HasType Γ Δ t' T
+
+/-- **Canonical forms under the declarative rules**: a closed value whose type is convertible with `int` is
+an integer literal, with `bool` is `true` or `false`, with a function type is a function, with `type` is a
+type former.  (This is where consistency of conversion — `int`, `bool`, `type` and function types are
+pairwise inconvertible — is needed.) -/
+def C04_canonical_forms_declarative_stmt : Prop :=
+  ∀ (v T : Tm), isValue v = true → v.holeFree = true → HasType [] [] v T →
+    (Conv [] T .int → ∃ n, v = .lit n) ∧
+    (Conv [] T .bool → v = .tt ∨ v = .ff) ∧
+    (∀ x im d c, Conv [] T (.pi x im d c) → ∃ y jm e b, v = .lam y jm e b) ∧
+    (Conv [] T .type → v = .type ∨ v = .int ∨ v = .bool ∨ ∃ x im d c, v = .pi x im d c)
